@@ -46,6 +46,7 @@ def tasks(tier, seed):
                                                                      'segno.utils.matrix_iter_verbose', 'segno.utils.matrix_to_lines'], weight=20, backend='ground')]
     for k in range(8 if tier == 'quick' else 64):
         ts.append(Task('bounded_purity[%d]' % k, MOD, 'task_bounded_purity', (seed, k), backend='bounded', fuc=['segno.make', 'segno.make_sequence', 'segno.QRCode.save'], weight=30))
+    ts.append(Task('bounded_native_battery', MOD, 'task_bounded_native', (seed,), backend='bounded', fuc=['segno.make'], weight=60))
     # idempotence lemma: the glue contract of _encode pins every stage argument to (segments, version, level actually used, mask actually used);
     # encoding again with the reported version / level / mask and boosting disabled therefore calls every stage with identical arguments
     # (the mask stage with the reported mask as request, whose contract - C06 - returns the same candidate), and the stages are deterministic (scan)
@@ -109,6 +110,16 @@ def task_write_scan(I):
         mi = extract.get_module(modname)
         module_names = set(mi.module.__dict__)
         funcs = _functions(mi.tree)
+        # class level attributes initialised with a mutable value
+        class_mutables = {}
+        for cn in ast.walk(mi.tree):
+            if isinstance(cn, ast.ClassDef):
+                for st_ in cn.body:
+                    if isinstance(st_, ast.Assign) and isinstance(st_.value, (ast.Dict, ast.List, ast.Set)) or \
+                            isinstance(st_, ast.Assign) and isinstance(st_.value, ast.Call) and isinstance(st_.value.func, ast.Name) and st_.value.func.id in ('dict', 'list', 'set', 'bytearray'):
+                        for t_ in st_.targets:
+                            if isinstance(t_, ast.Name):
+                                class_mutables.setdefault(cn.name, set()).add(t_.id)
         # enclosing function locals are also not shared state: collect per function chain
         parents = {}
         for q, fn in funcs:
@@ -144,13 +155,33 @@ def task_write_scan(I):
                     b = _base_name(n.func.value)
                     if b is not None and b not in local and b in module_names:
                         probs.append('line %d: %s() on module level name %r' % (n.lineno, n.func.attr, b))
+            # hidden state: a mutable default argument lives as long as the function and is shared by all calls
+            a_ = fn.args
+            for dflt in list(a_.defaults) + [d_ for d_ in a_.kw_defaults if d_ is not None]:
+                if isinstance(dflt, (ast.Dict, ast.List, ast.Set, ast.ListComp, ast.DictComp, ast.SetComp)) or \
+                        (isinstance(dflt, ast.Call) and isinstance(dflt.func, ast.Name) and dflt.func.id in ('dict', 'list', 'set', 'bytearray', 'defaultdict', 'OrderedDict', 'deque')):
+                    probs.append('line %d: mutable default argument (state shared between calls)' % dflt.lineno)
+            # state kept on the class: a store through / mutator call on an attribute that the class body initialises with a mutable value
+            cls_mut = class_mutables.get(q.rsplit('.', 1)[0], set()) if '.' in q else set()
+            for n in ast.walk(ast.Module(body=body, type_ignores=[])):
+                tgt = None
+                if isinstance(n, (ast.Assign, ast.AugAssign, ast.Delete)):
+                    for t in (n.targets if hasattr(n, 'targets') else [n.target]):
+                        if isinstance(t, ast.Subscript):
+                            tgt = t.value
+                elif isinstance(n, ast.Call) and isinstance(n.func, ast.Attribute) and n.func.attr in MUTATORS:
+                    tgt = n.func.value
+                if isinstance(tgt, ast.Attribute) and isinstance(tgt.value, ast.Name) and tgt.value.id in ('self', 'cls') and tgt.attr in cls_mut:
+                    probs.append('line %d: mutation of the class level container %r' % (n.lineno, tgt.attr))
             for d in getattr(fn, 'decorator_list', []):
                 dn = d.func if isinstance(d, ast.Call) else d
                 name = dn.attr if isinstance(dn, ast.Attribute) else getattr(dn, 'id', None)
                 if name not in PURE_DECORATORS and not (isinstance(dn, ast.Attribute) and dn.attr in ('setter', 'getter')):
                     probs.append('line %d: decorator %r may keep state between calls' % (d.lineno, name))
+            # a SUFFICIENT condition of purity: a function that writes shared state may still be pure (a correct memo); reported as a violation
+            # only if the native purity battery observes a difference, else as undecided
             I.ground('C15.write_scan.function_writes_no_module_level_state', not probs, witness=dict(module=modname, function=q, problems=probs[:3]),
-                     replay=dict(fn='replay_purity'))
+                     replay=dict(fn='replay_purity'), kind='sufficient')
     I.ground('C15.write_scan.functions_scanned', n_fun > 100, witness=n_fun)
     I.samples = [dict(scan='write scan', functions=n_fun, modules=list(MODULES))]
 
@@ -182,11 +213,21 @@ def task_determinism_scan(I):
                     if isinstance(it, ast.Call) and isinstance(it.func, ast.Name) and it.func.id in ('set', 'frozenset'):
                         probs.append('line %d: iteration over a set' % getattr(node, 'lineno', it.lineno))
             I.ground('C15.determinism_scan.no_nondeterministic_primitive', not probs, witness=dict(module=modname, function=q, problems=probs[:3]),
-                     replay=dict(fn='replay_purity'))
+                     replay=dict(fn='replay_purity'), kind='sufficient')
     I.samples = [dict(scan='determinism scan', functions=n)]
 
 
 # ------------------------------------------------------------------ frame obligations on interpreted paths
+# the lookup tables of the library on the pinned tree (module level containers): a call that modifies one of them violates the property outright;
+# a write to any OTHER module level container (e.g. a cache a change introduces) only breaks the sufficient condition "nothing shared is written"
+LIBRARY_TABLE_MODULES = ('segno.consts.', 'segno.writers._ALPHA_COMMONS', 'segno.writers._NAME2RGB', 'segno.writers._VALID_SERIALIZERS', 'segno.helpers._MECARD_ESCAPE',
+                         'segno.helpers._VCARD_ESCAPE', 'segno.cli._EXT_TO_KW_MAPPING', 'argument')
+
+
+def _frame_kind(hits):
+    return 'post' if any(h.startswith(LIBRARY_TABLE_MODULES) for h in hits) else 'sufficient'
+
+
 def _protected_objects():
     """mutable containers reachable from the module dictionaries of the package"""
     prot = {}
@@ -240,7 +281,8 @@ def task_frame_encoder(I):
         res = {}
         I.explore(lambda I: I.call_function(f, (content,), dict(kw)), lambda I, k, v: res.update(kind=k, val=v))
         I.ground('C15.frame.encode_mutates_only_objects_allocated_in_the_call', not hits and repr(content) == before,
-                 witness=dict(call='encode(%r, **%r)' % (content, kw), touched=hits[:3]), replay=dict(fn='replay_purity'))
+                 witness=dict(call='encode(%r, **%r)' % (content, kw), touched=hits[:3]), replay=dict(fn='replay_purity'),
+                 kind='post' if repr(content) != before else _frame_kind(hits))
         I.ground('C15.frame.encode_ran', res.get('kind') == 'return', witness=repr(res.get('val'))[:100])
         # interpreter soundness cross-check: the interpreted real source and CPython agree on the whole pipeline
         if res.get('kind') == 'return':
@@ -257,7 +299,7 @@ def task_frame_encoder(I):
         res = {}
         I.explore(lambda I: I.call_function(g, (content,), dict(kw)), lambda I, k, v: res.update(kind=k, val=v))
         I.ground('C15.frame.encode_sequence_mutates_only_objects_allocated_in_the_call', not hits,
-                 witness=dict(call='encode_sequence(%r, **%r)' % (content[:20], kw), touched=hits[:3]), replay=dict(fn='replay_purity'))
+                 witness=dict(call='encode_sequence(%r, **%r)' % (content[:20], kw), touched=hits[:3]), replay=dict(fn='replay_purity'), kind=_frame_kind(hits))
     # iteration / line helpers on an existing symbol: the symbol is not changed
     q = segno.make('frame', micro=False)
     from pyvc.values import VBytearray
@@ -285,6 +327,8 @@ def _table_snapshot():
         for name, val in mod.__dict__.items():
             if name.startswith('__') or callable(val) or isinstance(val, type(os)):
                 continue
+            if not (modname + '.' + name).startswith(LIBRARY_TABLE_MODULES):
+                continue        # only the library's own tables: a container introduced by a change (e.g. a cache) is the business of the write scan
             try:
                 snap[modname + '.' + name] = copy.deepcopy(val)
             except Exception:
@@ -375,3 +419,24 @@ def task_bounded_purity(I, seed, k):
     a, b = make(1, {}), make(True, {})
     I.ground('C15.bounded.equal_hashing_arguments_do_not_share_results', a == make('1', {}) and b == make('True', {}), witness=dict(a=a[0], b=b[0]), kind='bounded', replay=rp)
     I.samples = [dict(bounded='purity', calls=len(calls), threads=16)]
+
+
+def task_bounded_native(I, seed):
+    """BOUNDED (labelled): native battery in fresh interpreters - (1) ~60 calls that differ in exactly the dimensions a cache key could forget
+    (encoding / eci with equal byte lengths, equal lengths in different modes, level / version / mask / micro flag, equal-hashing arguments): every call after
+    every other call (1200 sampled ordered pairs) gives the result of a fresh interpreter; (2) 16 threads encoding one symbol size at once in a cold interpreter;
+    (3) systematic schedules: thread B encodes a complete symbol while thread A is suspended at the entry of its k-th encoder function, for every k, cold state each"""
+    import json
+    import os
+    from pyvc import runner
+    rc, out, err = runner.run_native([os.path.join(runner.VERIF, 'purity_native.py'), str(seed)], timeout=1500)
+    try:
+        res = json.loads(out.strip().split('\n')[-1])
+    except Exception:
+        raise RuntimeError('purity_native.py failed: rc=%r %s' % (rc, err[-600:]))
+    rp = dict(fn='replay_purity')
+    I.ground('C15.bounded.every_call_after_every_other_call_gives_the_result_of_a_fresh_interpreter_and_cold_threads_agree', not res['history'],
+             witness=res['history'][:2], kind='bounded', replay=rp)
+    I.ground('C15.bounded.thread_B_running_while_thread_A_is_suspended_at_any_encoder_function_entry_changes_nothing', not res['schedules'],
+             witness=res['schedules'][:2], kind='bounded', replay=rp)
+    I.samples = [dict(bounded='native battery', ordered_pairs=1200, cold_thread_runs=8, schedule_configs=5)]
